@@ -13,6 +13,7 @@
      - without hooks no hook is called; the only bytes written are those of the request. *)
 Require Import MB.GoSem MB.CrcModel MB.PacketModel MB.ClientModel.
 Require Import MB.proofs.ClientProofs MB.proofs.ClientC07 MB.proofs.ClientC07Inst MB.proofs.ClientInv.
+Require Import MB.proofs.ClientHookSplit.
 Open Scope N_scope.
 
 Theorem C19_hooks_exact :
@@ -46,6 +47,42 @@ Theorem C19_hook_calls :
 Proof. exact hooks_of_add_hooks. Qed.
 Print Assumptions C19_hook_calls.
 
+(* projections of the exact trace, for every configuration, script and request (nil included):
+   hooks never add, drop or reorder transport calls ... *)
+Theorem C19_hooks_do_not_change_io :
+  forall cfg sc r,
+  filter not_hook (snd (client_do (set_hooks cfg true) sc r)) = snd (client_do (set_hooks cfg false) sc r).
+Proof. exact hooks_transport_projection. Qed.
+Print Assumptions C19_hooks_do_not_change_io.
+
+(* ... the hook calls alone are one BeforeWrite per Write and one AfterEachRead per Read of the
+   hook-free run, in order, then BeforeParse iff a frame reaches the parser ... *)
+Theorem C19_all_hook_calls :
+  forall cfg sc r,
+  filter is_hook (snd (client_do (set_hooks cfg true) sc r)) =
+    flat_map hook_of (snd (client_do (set_hooks cfg false) sc r)) ++
+    match parser_input (set_hooks cfg false) sc r with Some b => [HBeforeParse b] | None => [] end.
+Proof. exact hooks_hook_projection. Qed.
+Print Assumptions C19_all_hook_calls.
+
+(* ... so the numbers agree: no hook call is skipped or doubled ... *)
+Theorem C19_hook_counts :
+  forall cfg sc r,
+  let th := snd (client_do (set_hooks cfg true) sc r) in
+  count is_bw th = count is_wr th /\ count is_ar th = count is_rd th /\
+  count is_bp th = (match parser_input (set_hooks cfg false) sc r with Some _ => 1 | None => 0 end)%nat.
+Proof. exact hooks_counts. Qed.
+Print Assumptions C19_hook_counts.
+
+(* ... and BeforeParse, when called, is the last event of the call and shows the parser's input *)
+Theorem C19_before_parse_is_last :
+  forall cfg sc r b,
+  In (HBeforeParse b) (snd (client_do (set_hooks cfg true) sc r)) ->
+  exists t, snd (client_do (set_hooks cfg true) sc r) = t ++ [HBeforeParse b] /\
+            parser_input (set_hooks cfg false) sc r = Some b.
+Proof. exact before_parse_is_last. Qed.
+Print Assumptions C19_before_parse_is_last.
+
 (* ---------- non-vacuity ---------- *)
 Example C19_example :
   let q := rq false (RWReg 1 2 3 4) in
@@ -70,3 +107,10 @@ Example C19_example_failing_read :
    TRead [0] 3; HAfterRead [0] 1 3; TFlush] /\
   parser_input (set_hooks (cfg_of KSerial) false) sc (Some q) = None.
 Proof. cbn zeta. split; vm_compute; reflexivity. Qed.
+(* the projections on the first example: 1 write, 4 reads, one BeforeParse *)
+Example C19_example_counts :
+  let q := rq false (RWReg 1 2 3 4) in
+  let sc := plain [quiet; deliver false [0; 7; 0; 0; 0]; quiet; deliver true [6; 1; 6; 0; 2; 3; 4]] in
+  let th := snd (client_do (set_hooks (cfg_of KTcp) true) sc (Some q)) in
+  (count is_bw th, count is_ar th, count is_bp th, count is_wr th, count is_rd th) = (1, 4, 1, 1, 4)%nat.
+Proof. vm_compute. reflexivity. Qed.
